@@ -227,7 +227,22 @@ class Ctx:
         status = str(r)
         if r == z3.sat:
             model = self.decode_model(self.solver.model())
-        elif r == z3.unknown and self.use_cvc5:
+        elif r == z3.unknown:
+            # second attempt: fresh solver, other seed, three times the budget
+            s2 = z3.Solver()
+            s2.set("timeout", self.timeout_ms * 3)
+            s2.set("random_seed", 7)
+            s2.add(self.solver.assertions())
+            t1 = time.time()
+            r2 = s2.check()
+            self.solver_time += time.time() - t1
+            if r2 == z3.unsat:
+                status, backend = "unsat", "z3(retry)"
+            elif r2 == z3.sat:
+                status, backend = "sat", "z3(retry)"
+                self.solver_retry_model = s2.model()
+                model = self.decode_model(s2.model())
+        if status == "unknown" and self.use_cvc5:
             from .backends import cvc5_check
 
             r2 = cvc5_check(self.solver.to_smt2(), max(5, self.timeout_ms // 1000))
@@ -354,6 +369,9 @@ class Interp:
             else:
                 raise SymRaise(TypeError, "unexpected kwargs %s" % list(kwargs))
         fr = Frame(fi, env, mod, outer=closure_env, loopspecs=loopspecs)
+        from .contracts import snap
+        memo = {}
+        fr.entry = {k: snap(v, memo) for k, v in env.items()}
         self.depth += 1
         if self.depth > self.inline_depth:
             raise SymError("inline depth exceeded at %s (recursion needs a contract)" % fi.qualname)
@@ -660,11 +678,12 @@ class Interp:
         ctx = self.ctx
         ordinal = fr.loops.index(s)
         tag = "loop%d" % ordinal
+        # 0. what the loop may modify (python lists that grow are promoted to symbolic lists here)
+        targets, heap = self.modified_by(s, fr, spec)
         # 1. invariant on entry
         if spec.inv is not None:
             ctx.oblige("inv-entry:%s" % tag, self.call_spec(spec.inv, fr, 0 if it is not None else None))
         # 2. havoc
-        targets, heap = self.modified_by(s, fr, spec)
         for name in sorted(targets):
             if name in spec.types:
                 fr.env[name] = spec.types[name].fresh(ctx, name)
@@ -1168,8 +1187,19 @@ class Interp:
         g = gens[i]
         it = self.make_iter(self.eval(g.iter, fr), g.iter)
         if not isinstance(it.length, int):
-            hook = getattr(self.summ, "symbolic_comprehension", None)
-            raise SymError("comprehension over symbolic-length iterable: %s" % _txt(g.iter))
+            # small-domain case split: if the length is provably <= 256, fork on each value
+            self.ctx.solver.push()
+            self.ctx.solver.add(z3.Or(it.length < 0, it.length > 256))
+            r = self.ctx._check()
+            self.ctx.solver.pop()
+            if r != z3.unsat:
+                raise SymError("comprehension over symbolic-length iterable: %s" % _txt(g.iter))
+            for v in range(0, 257):
+                if self.ctx.branch(it.length == v):
+                    it = SIter(v, it.item, it.desc)
+                    break
+            else:
+                raise PathEnd()
         for k in range(it.length):
             self.assign(g.target, it.item(k), fr)
             ok = True
